@@ -57,7 +57,7 @@ META = {
         ref="3/C08",
     ),
     "C09": dict(
-        technique="runtime monitor: optimal finder's cost vs exhaustive enumeration of all (2n-3)!! trees with the independent cost model",
+        technique="runtime monitor: optimal finder's cost vs exhaustive enumeration of all (2n-3)!! trees with the independent cost model; sys.monitoring step counter bounding the finder's cost-cap loop (logical progress bound, kind no_return)",
         text="Exploration over qualifying networks (n<=6 quick, 7 thorough) x 6 objectives x search_outer x cost_cap values; exhaustive per input, sampled over inputs.",
         note="Trusts the tree enumerator (count checked against (2n-3)!!) and the cost model.",
         ref="3/C09",
